@@ -40,6 +40,7 @@ def _shapes(tier):
         "2sc": ([F([S(2), S(2)])], Z),
         "bg+rule": ([F([S(1), R([S(1)], bg=1)], bg=1)], Z),
         "outline": ([F([O(1, [(2, []), (0, [])]), S(1)])], Z),      # second Examples table is header-only
+        "stepless": ([F([S(1), S(0), S(1), R([S(0)]), R([S(1)])])], {"out_dom": {"*": [0, 1]}}),      # elements without children
         "2feat": ([F([S(2)]), F([S(1)])], Z),
         "wip": ([F([S(2, tags=["wip"]), S(1)])], Z),
         "wip-inherited": ([F([S(1), R([S(2)], tags=["wip"])])], Z),      # @wip on the rule only
